@@ -183,6 +183,16 @@ func (pr *prover) prove(g goal, p point, depth int) bool {
 			}
 		}
 	}
+	// 5. min builtin (before induction: a min over a bound that holds needs no induction)
+	if c, ok := g.a.(*ssa.Call); ok {
+		if b, ok := c.Call.Value.(*ssa.Builtin); ok && b.Name() == "min" {
+			for _, arg := range c.Call.Args {
+				if pr.prove(goal{arg, g.s}, p, depth+1) {
+					return true
+				}
+			}
+		}
+	}
 	// 3. phi induction
 	aphi, aIsPhi := g.a.(*ssa.Phi)
 	sphi, sIsPhi := g.s.(*ssa.Phi)
@@ -222,17 +232,6 @@ func (pr *prover) prove(g goal, p point, depth int) bool {
 		delete(pr.inprog, g)
 		if ok {
 			return true
-		}
-		return false
-	}
-	// 5. min builtin
-	if c, ok := g.a.(*ssa.Call); ok {
-		if b, ok := c.Call.Value.(*ssa.Builtin); ok && b.Name() == "min" {
-			for _, arg := range c.Call.Args {
-				if pr.prove(goal{arg, g.s}, p, depth+1) {
-					return true
-				}
-			}
 		}
 	}
 	return false
